@@ -393,6 +393,11 @@ def r12_6(ctx, rep):
     cl = prog.fn("terms.call.Call.__init__")
     st = [x for x in walk_local(cl.node) if isinstance(x, ast.Assign) and is_self_attr(x.targets[0], "name")]
     obl(rep, cl, st[0] if st else cl.node, "R12.6", len(st) == 1 and unparse(st[0].value) == "str(self.call)", "the term name is str(call)")
+    from . import shared
+
+    shared.eq_compares_fields(prog, rep, "R12.6", ["terms.call_resolver.LazyCall", "terms.call_resolver.LazyOperator",
+                                                  "terms.call_resolver.LazyValue", "terms.call_resolver.LazyVariable", "terms.call.Call"],
+                              extra_from_str=True)
     # injectivity detector
     g = prog.fn("terms.call_resolver.CallResolver.visitGroupingExpr")
     erased, _ = C01._passthrough_visit(g, g.params[1])
